@@ -1,67 +1,78 @@
 #!/usr/bin/env python3
-"""Mutant runner: for each /verif/mutants/<prop>-<name>.patch (or the ones named on the command line)
-apply it to /repo, run the repository's own suite (must stay green, otherwise the mutant proves nothing),
-run the quick check(s) of the targeted property (must print VIOLATION), and restore /repo.
-Results are appended to /verif/mutants/RESULTS.md.  Usage: tools/mutants.py [--no-suite] [--checks C04,C06] [patch ...]"""
-import glob, os, subprocess, sys, time, re
+"""Mutant runner. Works on scratch copies of /repo and /verif (default /tmp/vmut) so that it can run in the
+background without disturbing /repo: for each mutants/<props>-<name>.patch it applies the patch to the scratch
+repository, runs the repository's own suite there (must stay green, otherwise the mutant proves nothing), runs
+the quick check(s) of the targeted properties (must print VIOLATION), and reverts. Results are appended to
+/verif/mutants/RESULTS.md.   Usage: tools/mutants.py [--no-suite] [--checks C04,C06] [--root DIR] [patch ...]"""
+import glob, os, subprocess, sys, time, re, shutil
 VERIF = os.path.dirname(os.path.dirname(os.path.abspath(__file__)))
-REPO = "/repo"
 
-def sh(cmd, cwd=None, timeout=3600, env=None):
+def sh(cmd, cwd=None, timeout=7200, env=None):
     r = subprocess.run(cmd, cwd=cwd, shell=isinstance(cmd, str), stdout=subprocess.PIPE, stderr=subprocess.STDOUT, text=True, timeout=timeout, env=env)
     return r.returncode, r.stdout
 
-def clean_repo():
-    rc, out = sh("git status --porcelain", cwd=REPO)
-    return out.strip() == ""
+def prepare(root):
+    os.makedirs(root, exist_ok=True)
+    repo, verif = os.path.join(root, "repo"), os.path.join(root, "verif")
+    sh(f"rsync -a --delete --exclude target --exclude .git /repo/ {repo}/")
+    sh(f"cd {repo} && (test -d .git || (git init -q && git add -A && git -c user.email=a@b -c user.name=m commit -qm base)) && git add -A && git -c user.email=a@b -c user.name=m commit -qm sync --allow-empty")
+    sh(f"rsync -a --delete --exclude .target --exclude .work --exclude .git --exclude evidence --exclude replays /verif/ {verif}/")
+    # point the scratch harness at the scratch repository and its own target directory
+    for f in ["harness/zv/Cargo.toml", "harness/.cargo/config.toml", "featdrv/Cargo.toml", "featdrv/.cargo/config.toml"]:
+        p = os.path.join(verif, f)
+        if os.path.exists(p):
+            s = open(p).read().replace('"/repo/', f'"{repo}/').replace("/verif/.target", f"{verif}/.target")
+            open(p, "w").write(s)
+    return repo, verif
 
 def main():
     args = sys.argv[1:]
-    suite = True
-    checks_override = None
-    patches = []
+    suite, checks_override, patches, root, tier = True, None, [], "/tmp/vmut", "quick"
     i = 0
     while i < len(args):
         if args[i] == "--no-suite": suite = False
         elif args[i] == "--checks": i += 1; checks_override = args[i].split(",")
+        elif args[i] == "--root": i += 1; root = args[i]
+        elif args[i] == "--tier": i += 1; tier = args[i]
         else: patches.append(os.path.abspath(args[i]))
         i += 1
     if not patches:
         patches = sorted(glob.glob(os.path.join(VERIF, "mutants", "*.patch")))
-    if not clean_repo():
-        print("refusing to run: /repo has uncommitted changes"); return 2
+    repo, verif = prepare(root)
+    env = dict(os.environ, VERIF_REPO=repo, VERIF_DIR=verif)
     rows = []
     for p in patches:
         name = os.path.basename(p)[:-6]
-        m = re.match(r"(C\d+(?:_C\d+)*)-", name)
-        props = checks_override or (m.group(1).split("_") if m else [])
-        rc, out = sh(["git", "apply", "--whitespace=nowarn", p], cwd=REPO)
+        m = re.match(r"((?:C\d+_?)+)-", name)
+        props = checks_override or (m.group(1).strip("_").split("_") if m else [])
+        rc, out = sh(["git", "apply", "--whitespace=nowarn", p], cwd=repo)
         if rc != 0:
-            rows.append((name, "patch does not apply", "", "")); print(name, "does not apply:", out); continue
+            rows.append((name, "patch does not apply", "", out.strip()[:200])); print(rows[-1], flush=True); continue
         try:
             suite_res = "skipped"
             if suite:
                 t0 = time.time()
-                rc, out = sh("cargo test --workspace --no-fail-fast --offline 2>&1 | grep -E '^test result|FAILED|panicked' | head -20", cwd=REPO)
-                failed = re.search(r"(\d+) failed", out) and any(int(x) > 0 for x in re.findall(r"(\d+) failed", out))
+                rc, out = sh("cargo test --workspace --no-fail-fast --offline 2>&1 | grep -E '^test result|FAILED|panicked|^error' | head -20", cwd=repo, env=env)
+                failed = any(int(x) > 0 for x in re.findall(r"(\d+) failed", out)) or "error" in out
                 ok = ("test result" in out) and not failed
-                suite_res = f"green ({time.time()-t0:.0f}s)" if ok else "RED (caught by the repository's tests)"
+                suite_res = f"green ({time.time()-t0:.0f}s)" if ok else "RED (caught by the repository's own tests)"
             det = []
             for prop in props:
                 t0 = time.time()
-                rc, out = sh([os.path.join(VERIF, "check"), prop, "--tier", "quick"], cwd=VERIF)
+                rc, out = sh([os.path.join(verif, "check"), prop, "--tier", tier], cwd=verif, env=env)
                 viol = [l for l in out.splitlines() if l.startswith("VIOLATION")]
                 what = [l.strip() for l in out.splitlines() if l.strip().startswith("what:")]
-                det.append((prop, rc, len(viol), time.time() - t0, what[0][:160] if what else ""))
+                extra = "" if rc in (0, 1) else " " + " | ".join(out.strip().splitlines()[-3:])[:300]
+                det.append((prop, rc, len(viol), time.time() - t0, (what[0][:200] if what else "") + extra))
             caught = any(rc == 1 and n > 0 for _, rc, n, _, _ in det)
             rows.append((name, suite_res, "CAUGHT" if caught else "MISSED", "; ".join(f"{p}: exit {rc}, {n} violation(s), {t:.0f}s {w}" for p, rc, n, t, w in det)))
             print(rows[-1], flush=True)
         finally:
-            sh("git checkout -- . && git clean -fdq -- ruzstd cli", cwd=REPO)
+            sh("git checkout -- . && git clean -fdq", cwd=repo)
     with open(os.path.join(VERIF, "mutants", "RESULTS.md"), "a") as f:
-        f.write(f"\n## run {time.strftime('%Y-%m-%d %H:%M:%S')}\n\n| mutant | repository suite | verdict | checks |\n|---|---|---|---|\n")
+        f.write(f"\n## run {time.strftime('%Y-%m-%d %H:%M:%S')} (tier {tier})\n\n| mutant | repository suite | verdict | checks |\n|---|---|---|---|\n")
         for r in rows:
-            f.write("| " + " | ".join(r) + " |\n")
+            f.write("| " + " | ".join(x.replace("|", "/") for x in r) + " |\n")
     return 0
 
 if __name__ == "__main__":
